@@ -40,30 +40,50 @@ func c09Jobs(tier string, seed uint64, n int) []c09Job {
 	if n == 0 {
 		n = 4000
 		if tier == "thorough" {
-			n = 160000
+			n = 150000
 		}
 	}
 	var jobs []c09Job
 	for i := range c09Corpus() {
 		jobs = append(jobs, c09Job{"corpus", i, seed})
 	}
-	nb, na, nm, nc := n*45/100, n*35/100, n*5/100, n*15/100
-	if tier == "thorough" && nm > 3000 {
-		nc += nm - 3000
-		nm = 3000
+	nb, na, nm, nc := n*46/100, n*36/100, n*2/100, n*4/100
+	if tier == "thorough" {
+		nm, nc = 3000, 9000
 	}
-	for i := 0; i < nb; i++ {
-		jobs = append(jobs, c09Job{"bytes", i, seed})
+	// the model / cycle cases carry whole schemas and documents into Coq: spread them evenly
+	// over the cheap ones so that every Coq shard gets its share
+	light := make([]c09Job, 0, nb+na)
+	for i := 0; i < nb || i < na; i++ {
+		if i < nb {
+			light = append(light, c09Job{"bytes", i, seed})
+		}
+		if i < na {
+			light = append(light, c09Job{"ast", i, seed})
+		}
 	}
-	for i := 0; i < na; i++ {
-		jobs = append(jobs, c09Job{"ast", i, seed})
+	heavy := make([]c09Job, 0, nm+nc)
+	for i := 0; i < nm || i < nc; i++ {
+		if i < nm {
+			heavy = append(heavy, c09Job{"model", i, seed})
+		}
+		if i < nc {
+			heavy = append(heavy, c09Job{"cycle", i, seed})
+		}
 	}
-	for i := 0; i < nm; i++ {
-		jobs = append(jobs, c09Job{"model", i, seed})
+	step := 1
+	if len(heavy) > 0 {
+		step = len(light)/len(heavy) + 1
 	}
-	for i := 0; i < nc; i++ {
-		jobs = append(jobs, c09Job{"cycle", i, seed})
+	h := 0
+	for i, j := range light {
+		jobs = append(jobs, j)
+		if i%step == step-1 && h < len(heavy) {
+			jobs = append(jobs, heavy[h])
+			h++
+		}
 	}
+	jobs = append(jobs, heavy[h:]...)
 	return jobs
 }
 
@@ -242,7 +262,7 @@ func c09DiedCase(j c09Job, why, stderr string) Case {
 
 func c09JobTimeout(size int) time.Duration {
 	// generous constant + c * size
-	return 15*time.Second + time.Duration(size)*50*time.Microsecond
+	return 30*time.Second + time.Duration(size)*50*time.Microsecond
 }
 
 var (
